@@ -476,7 +476,7 @@ fn number_string(vm: &mut Vm) -> Result<VCell, Error> {
     };
     let num = pop_number(vm)?;
     // Infinities and NaN have no digits in any radix
-    let finite = num.to_f64().map(|it| it.is_finite()).unwrap_or(true);
+    let finite = !matches!(num, Number::Float(it) if !it.is_finite());
     let result = match radix {
         16 if finite => format!("{:x}", num),
         8 if finite => format!("{:o}", num),
